@@ -442,3 +442,9 @@ mod tests {
         assert!(counts.record_data_frame(0).is_err());
     }
 }
+
+#[cfg(feature = "verif")]
+#[allow(missing_docs, dead_code, unused_imports)]
+pub(crate) mod verif_h {
+    include!(concat!(env!("H2_VERIF_DIR"), "/harness/proto/streams/counts.rs"));
+}
